@@ -39,6 +39,10 @@ AbsV(x)  == IF x < 0 THEN -x ELSE x
 -----------------------------------------------------------------------------
 (* Denotation: a function of the whole text                                 *)
 
+\* concatenation of a sequence of sequences, left to right without recursion (FlattenSeq of SequencesExt
+\* recurses once per element: texts of more than about 12 000 lines overflow TLC's stack)
+Flat(seqs) == FoldLeft(LAMBDA acc, x : acc \o x, <<>>, seqs)
+
 Significant(text) == SelectSeq(text, LAMBDA l : l.k \notin {"b", "c"})
 
 GoodProblem(l) == /\ l.k = "p"
@@ -59,7 +63,7 @@ DeclN(text) == Significant(text)[1].t[3].i
 DeclM(text) == Significant(text)[1].t[4].i
 DataInts(text) ==
     LET S == Significant(text)
-    IN  FlattenSeq([j \in 1..(Len(S) - 1) |-> [h \in 1..Len(S[j + 1].t) |-> S[j + 1].t[h].i]])
+    IN  Flat([j \in 1..(Len(S) - 1) |-> [h \in 1..Len(S[j + 1].t) |-> S[j + 1].t[h].i]])
 
 ZeroPositions(x) == SetToSortSeq({j \in 1..Len(x) : x[j] = 0}, <)
 \* maximal zero-free runs that are closed by a zero, in order
